@@ -53,7 +53,10 @@ def gen_tree(rnd, depth, in_list):
         tail_m = tail_r = None
         if not segs:
             segs.append(rnd.choice(NAMES))
-        if rnd.random() < 0.25 and segs[-1] not in ("self", "super", "crate"):
+        if segs[-1] in ("super", "crate") and rnd.random() < 0.5:
+            # `use crate as root;`, `use super::super as up;`: the alias of a path keyword is an import name like any other
+            segs[-1] = segs[-1] + " as " + rnd.choice(NAMES[:7] + ["_"])
+        elif rnd.random() < 0.25 and segs[-1] not in ("self", "super", "crate"):
             # `x as x` is dropped by from_ast (a redundant alias, not a rename): not generated
             al = rnd.choice([n for n in NAMES[:7] + ["_", "_"] if n != segs[-1]])
             segs[-1] = segs[-1] + " as " + al
